@@ -16,7 +16,7 @@ from hv.common import REPO, ROOT, SPEC, Ctx, MachineryError
 
 # What the CURRENT TREE does at the deviation points named in HiveCore (TRUE = repaired behaviour).
 # If a flag is wrong the conformance check reports a DIVERGENCE at the corresponding action.
-TREE_FLAGS = {"FixOOS": True, "FixCB": True, "FixFull": True, "FixQueuePlug": True}
+TREE_FLAGS = {"FixOOS": True, "FixCB": True, "FixFull": True, "FixQueuePlug": True, "FixFifo": True}
 
 
 def flags_cfg(flags: Optional[Dict[str, bool]] = None) -> str:
